@@ -186,12 +186,12 @@ func where(allowed, p string) string {
 
 // permit says what one operation is allowed to change on disk.
 type permit struct {
-	writer    string                                                   // names the writer in signatures
-	region    string                                                   // the directory the operation's files belong to (for where())
-	dirsExact []string                                                 // directories that may be created
-	dirsUnder []string                                                 // … and anything strictly inside these
+	writer    string                                                       // names the writer in signatures
+	region    string                                                       // the directory the operation's files belong to (for where())
+	dirsExact []string                                                     // directories that may be created
+	dirsUnder []string                                                     // … and anything strictly inside these
 	files     map[string]func(old []byte, existed bool, cur []byte) string // path -> validator ("" = fine)
-	targetIn  bool                                                     // the operation's own target is contained (only for the signature)
+	targetIn  bool                                                         // the operation's own target is contained (only for the signature)
 	// noWriteSig: signature suffix used when a file INSIDE region changes although the
 	// operation may write no such file (stray write/close, rejected open …).
 	noWriteSig string
